@@ -140,4 +140,37 @@ def tnValueD (R C : Int) (d : Dist Int) (byRow : Bool) (sample : BVec) : Except 
   let tn := if byRow then (rprmpsTn R C d sample).transpose else rprmpsTn R C d sample
   cosetValue tn tn
 
+/-! ### the procedure of `RotatedPlanarRMPSDecoder._coset_probabilities`: bras shared between pairs of cosets
+    (executed by `PlanarTn.runPlan`, see Model/PlanarTn.lean) -/
+
+/-- mode 'c': "I,Z and X,Y cosets differ only in the last column (logical Z)" — `bra_i` from `tns[0]` serves slots 0
+    (ket `tns[0]`) and 3 (ket `tns[3]`); the bra from `tns[1]` serves slots 1 (ket `tns[1]`) and 2 (ket `tns[2]`) -/
+def planCols : PlanarTn.Plan := [(0, [(0, 0), (3, 3)]), (1, [(1, 1), (2, 2)])]
+
+/-- mode 'r', on the transposed networks: "I,X and Z,Y cosets differ only in the last row (logical X)" — `bra_i` from
+    `tns[0]` serves slots 0 and 1; the bra from `tns[3]` serves slots 3 and 2 (in that order) -/
+def planRows : PlanarTn.Plan := [(0, [(0, 0), (1, 1)]), (3, [(3, 3), (2, 2)])]
+
+/-- `tns = [create_tn(prob_dist, sp) for sp in sample_paulis]`, sample Paulis
+    `f, f.logical_x(), f.logical_x().logical_z(), f.logical_z()` -/
+def tnsOf (R C : Int) (d : Dist Int) (f : BVec) : List Net :=
+  (recoveries4 (RotatedPlanar.logicalX R C) (RotatedPlanar.logicalZ R C) f).map (rprmpsTn R C d)
+
+/-- `coset_ps_col` of `RotatedPlanarRMPSDecoder._coset_probabilities` (mode 'c'; `chi = tol = None`) -/
+def cosetValuesC (R C : Int) (d : Dist Int) (f : BVec) : Except Err (List Int) :=
+  PlanarTn.runPlan (tnsOf R C d f) planCols
+
+/-- `coset_ps_row` (mode 'r'): `tns = [mps2d.transpose(tn) for tn in tns]`, then the row pairing -/
+def cosetValuesR (R C : Int) (d : Dist Int) (f : BVec) : Except Err (List Int) :=
+  PlanarTn.runPlan ((tnsOf R C d f).map Net.transpose) planRows
+
+/-- mode 'a': by column, then by row, then `sum(coset_p) / len(coset_p)` per coset -/
+def cosetValuesA (R C : Int) (d : Dist Int) (f : BVec) : Except Err (List Rat) :=
+  match cosetValuesC R C d f with
+  | .error e => .error e
+  | .ok c =>
+    match cosetValuesR R C d f with
+    | .error e => .error e
+    | .ok r => .ok (PlanarTn.averageValues c r)
+
 end Qec.RotatedPlanarRmpsTn
